@@ -346,18 +346,18 @@ def run(prop, tier, repo, outdir, seed):
 
 REPLAY_BINS = {
     "C05": [("c05_stall", []), ("c_run", [], ["C05"])],
-    "C04": [("c04_empty", []), ("c_sched", [], ["C04"]), ("c_run", [], ["C04"]), ("c05_stall", []), ("c08_interrupt", ["--features", "interruptible"])],
-    "C02": [("c_sched", [], ["C02"]), ("c_run", [], ["C02"]), ("c05_stall", [], ["C02"])],
-    "C03": [("c_sched", [], ["C03"]), ("c_run", [], ["C03"]), ("c05_stall", [], ["C03"])],
+    "C04": [("c04_empty", []), ("c_sched", [], ["C04"]), ("c_sched", [], ["C04", "--exhaustive"]), ("c_run", [], ["C04"]), ("c05_stall", []), ("c08_interrupt", ["--features", "interruptible"])],
+    "C02": [("c_sched", [], ["C02"]), ("c_sched", [], ["C02", "--exhaustive"]), ("c_run", [], ["C02"]), ("c05_stall", [], ["C02"])],
+    "C03": [("c_sched", [], ["C03"]), ("c_sched", [], ["C03", "--exhaustive"]), ("c_run", [], ["C03"]), ("c05_stall", [], ["C03"])],
     "C07": [("c_run", [], ["C07"])],
     "C08": [("c08_interrupt", ["--features", "interruptible"])],
     "C09": [("c_run", [], ["C09"]), ("c08_interrupt", ["--features", "interruptible"], ["C09"])],
-    "C10": [("c_sched", [], ["C10"]), ("c_run", [], ["C10"])],
+    "C10": [("c_sched", [], ["C10"]), ("c_sched", [], ["C10", "--exhaustive"]), ("c_run", [], ["C10"])],
     "C18": [("c18_pops", ["--features", "hooks"])],
     "C13": [("c13_ranks", [])],
     "C11": [("c11_build", [])],
-    "C01": [("c11_build", []), ("c_sched", [], ["C01"]), ("c_run", [], ["C01"])],
-    "C06": [("c11_build", []), ("c_sched", [], ["C06"])],
+    "C01": [("c11_build", []), ("c_sched", [], ["C01"]), ("c_sched", [], ["C01", "--exhaustive"]), ("c_run", [], ["C01"])],
+    "C06": [("c11_build", []), ("c_sched", [], ["C06"]), ("c_sched", [], ["C06", "--exhaustive"])],
     "C12": [("c11_build", [])],
     "C14": [("c14_seq", [])],
     "C15": [("c_sched", [], ["C15"])],
@@ -379,7 +379,7 @@ NOASYNC_BINS = {"C11": ["c11_build"], "C12": ["c11_build"], "C13": ["c13_ranks"]
 FNMETA_BINS = {"C01": [("c11_build", []), ("c_sched", ["C01"])], "C06": [("c11_build", []), ("c_sched", ["C06"])], "C11": [("c11_build", [])], "C12": [("c11_build", [])]}
 
 
-def _native_jobs(prop, repo, outdir):
+def _native_jobs(prop, repo, outdir, thorough=False):
     """(label, cwd, cmd) of every native run registered for the property: each harness in the dev profile, then in the
     profile without debug assertions, then (builder side) against the crate without its `async` feature."""
     jobs = []
@@ -390,7 +390,10 @@ def _native_jobs(prop, repo, outdir):
             name, extra = b[0], b[1]
             pargs = b[2] if len(b) > 2 else []
             cmd = ["cargo", "run"] + prof + ["--offline", "--quiet", "--target-dir", tdir, "--bin", name] + extra + (["--"] + pargs if pargs else [])
-            jobs.append((f"{name} {' '.join(pargs)}".strip() + plabel, crate, cmd, bool(prof), {}))
+            exh = "--exhaustive" in pargs
+            if exh and prof:
+                continue  # the exhaustive enumeration is deterministic: once, in the dev profile
+            jobs.append((f"{name} {' '.join(pargs)}".strip() + plabel, crate, cmd, bool(prof) or exh, ({"VERIF_EXHAUSTIVE_N": "5"} if (exh and thorough) else {})))
     # the whole-run harness once more on a tokio current-thread runtime (its cooperative budget changes which polls return Pending)
     for b in REPLAY_BINS.get(prop, []):
         if b[0] == "c_run":
@@ -426,7 +429,7 @@ def bounded_exploration(prop, repo, outdir, seeds):
     out, found = [], None
     crate = _crate_for(repo, "replay", outdir)
     tdir = os.path.join(VERIF, "replay", "target") if repo == "/repo" else os.path.join(outdir, "replay_target")
-    for label, cwd, cmd, secondary, jenv in _native_jobs(prop, repo, outdir):
+    for label, cwd, cmd, secondary, jenv in _native_jobs(prop, repo, outdir, thorough=True):
         # every driver seed in the default configuration; the other configurations once, with the last seed
         for sd in (seeds[-1:] if secondary else seeds):
             env = dict(ENV, VERIF_SEED=str(sd), **jenv)
